@@ -59,13 +59,17 @@ def iter : Nat → List Sum → List Sum
 
 /-- The summary table. The translator computes it (same transfer function, in Go) and emits it
     as `Skeleton.tableHint`; nothing is taken on trust: `isFixedPoint` re-runs one round of the
-    Lean transfer function over it in the kernel. Every fixed point of the (monotone) transfer
-    function lies above each finite unrolling `iter n ⊥` (`Proofs/Skel.iter_le_fixed`), and all
+    Lean transfer function over it in the kernel. Every well-formed fixed point of the (monotone)
+    transfer function lies above each finite unrolling `iter n ⊥` (`Proofs/Skel.iter_le_fixed`,
+    instantiated for this table as `C12.skeleton_table_sound`), and all
     facts drawn from the table are upper bounds ("at most these steps / variables / no
     unhooked mutation"), so a fixed point is all that soundness needs. -/
 def table : List Sum := tableHint
 
 def isFixedPoint : Bool := round table == table && table.length == bodies.length && fnNames.length == bodies.length
+
+/-- every entry has `late ⊆ all` -/
+def tableWf : Bool := table.all (fun s => s.late &&& s.all == s.late)
 
 def fnIndex (name : String) : Option Nat := fnNames.idxOf? name
 
